@@ -19,4 +19,5 @@ pub fn fmt_opaque() -> FmtOpaque { FmtOpaque {} }
 #[verifier::external_body]
 pub fn vpanic() -> !
     requires false
+    ensures false
 { panic!() }
